@@ -74,7 +74,7 @@ func genLayout(t *rapid.T, maxWidth int) Layout {
 
 func genID(t *rapid.T, i int, label string) string {
 	// IDs are unique by construction (index suffix) and free of whitespace, commas and '/'.
-	stem := rapid.SampledFrom([]string{"q", "seq", "hCoV-19_x", "S", "Wuhan|2020", "t", "sample.1"}).Draw(t, label)
+	stem := rapid.SampledFrom([]string{"q", "seq", "hCoV-19_x", "S", "Wuhan|2020", "t", "sample.1", "#s", "EPI_ISL_", "2020-03-"}).Draw(t, label)
 	return fmt.Sprintf("%s%d", stem, i)
 }
 
